@@ -62,7 +62,10 @@ try:
         shutil.copyfile(os.path.join(seedwt, rel), os.path.join(wt, rel))
     os.makedirs(os.path.join(wt, ".seed"), exist_ok=True)
     for f in os.listdir(sd):
-        shutil.copyfile(os.path.join(sd, f), os.path.join(wt, ".seed", f))
+        if os.path.isdir(os.path.join(sd, f)):
+            shutil.copytree(os.path.join(sd, f), os.path.join(wt, ".seed", f), dirs_exist_ok=True)
+        else:
+            shutil.copyfile(os.path.join(sd, f), os.path.join(wt, ".seed", f))
     rc_with, out_with = sh(["sh", ".seed/run_demo.sh"], cwd=wt, timeout=900)
     sh(["git", "apply", "-R", patch], cwd=wt)
     rc_without, out_without = sh(["sh", ".seed/run_demo.sh"], cwd=wt, timeout=900)
@@ -98,7 +101,10 @@ if ok:
     dst = os.path.join("/verif/seeded", name)
     os.makedirs(dst, exist_ok=True)
     for f in os.listdir(sd):
-        shutil.copyfile(os.path.join(sd, f), os.path.join(dst, f))
+        if os.path.isdir(os.path.join(sd, f)):
+            shutil.copytree(os.path.join(sd, f), os.path.join(dst, f), dirs_exist_ok=True)
+        else:
+            shutil.copyfile(os.path.join(sd, f), os.path.join(dst, f))
     meta = {}
     try:
         meta = json.load(open(os.path.join(sd, "meta.json")))
